@@ -597,7 +597,8 @@ Proof.
   intros H Hc Hp. unfold check_C10 in H. rewrite Hp in H.
   assert (N3 : c <> V_MALFORMED) by (unfold V_MALFORMED; lia).
   destruct hist.
-  - destruct (run_steps cases 0%Z 0%Z T_HISTORY) as [[[v t] p] d] eqn:R.
+  - destruct cases as [|c0 rest]; [constructor|].
+    destruct (run_steps (c0 :: rest) 0%Z 0%Z T_HISTORY) as [[[v t] p] d] eqn:R.
     apply verdict_inj in H. destruct H as (-> & _). exact (proj2 (run_steps_sound _ _ _ _ _ _ _ _ R Hc)).
   - destruct cases as [|c0 [|c1 rest]].
     + apply verdict_inj in H. destruct H as (<- & _). congruence.
